@@ -175,19 +175,16 @@ end
 
 def initToksPy : List Nat → List Expr → List Tok
   | [], _ => [.p .lbrack, .p .rbrack]
-  | [_], vals => [.p .lbrack] ++ (joinP [pp .comma] (vals.map pyNumber) |> toks) ++ [.p .rbrack]
+  | [_], vals => [.p .lbrack] ++ joinT [.p .comma] (vals.map (fun v => toks (pyNumber v))) ++ [.p .rbrack]
   | d :: d' :: ds, vals =>
     let inner := (d' :: ds).foldr (· * ·) 1
-    let parts := (chunks inner d vals).map (initToksPy (d' :: ds))
-    [.p .lbrack] ++ (parts.foldr (fun x acc => if acc.isEmpty then x else x ++ .p .comma :: acc) [])
-      ++ [.p .rbrack]
+    [.p .lbrack] ++ joinT [.p .comma] ((chunks inner d vals).map (initToksPy (d' :: ds))) ++ [.p .rbrack]
 
 def tupleToks (ns : List Nat) : List Tok :=
   match ns with
   | [] => [.p .lpar, .p .rpar]
   | [n] => [.p .lpar, .num (String.ofList (natDigits n)), .p .comma, .p .rpar]
-  | _ => [.p .lpar] ++ (joinP [pp .comma] (ns.map (fun n => [Piece.t (.num (String.ofList (natDigits n)))])) |> toks)
-    ++ [.p .rpar]
+  | _ => [.p .lpar] ++ joinT [.p .comma] (ns.map (fun n => [Tok.num (String.ofList (natDigits n))])) ++ [.p .rpar]
 
 /-- `dtype=np.float64` as tokens (valid names only; the INT/BOOL spellings are not Python and are
     lexed from the text instead) -/
